@@ -147,6 +147,9 @@ func memoryOps(p *an.Prog, m *ssa.Function) []storeOp {
 					}
 				}
 			}
+			if auxSkip[in] {
+				return // maintenance of a verified inverse index: part of the primary's write
+			}
 			switch x := in.(type) {
 			case *ssa.Lookup:
 				if f := memMapField(x.X); f != "" {
@@ -180,6 +183,9 @@ func memoryOps(p *an.Prog, m *ssa.Function) []storeOp {
 func memSpace(field string) string {
 	if s, ok := memFieldSpace[field]; ok {
 		return s
+	}
+	if ix := auxIndexes[field]; ix != nil && ix.Verified {
+		return ix.Space // a verified inverse index answers for the key space it mirrors (auxindex.go)
 	}
 	return "?mem:" + field
 }
